@@ -663,3 +663,124 @@ func (r *Rng) pickDest(b *Build) string {
 }
 
 func (r *Rng) pickOne(xs ...string) string { return xs[r.Intn(len(xs))] }
+
+// AddKindClashes makes one or two paths of the old build have ANOTHER kind in the new build (file <-> directory
+// <-> symlink), keeping the new build consistent (what lay below a path that becomes a file or symlink goes, or
+// is renamed elsewhere).  Both builds come back normalised.  Returns a description of what was done.
+func AddKindClashes(r *Rng, old, nw *Build) []string {
+	old.Normalize()
+	nw.Normalize()
+	var desc []string
+	for k := 0; k < 1+r.Intn(2); k++ {
+		var cands []BEntry
+		for _, e := range old.Entries {
+			if ne := nw.Find(e.Path); ne == nil || ne.Kind == e.Kind {
+				cands = append(cands, e)
+			}
+		}
+		if len(cands) == 0 {
+			break
+		}
+		e := cands[r.Intn(len(cands))]
+		p := e.Path
+		// what the new build currently has at or below p
+		var below []BEntry
+		for _, ne := range nw.Entries {
+			if strings.HasPrefix(ne.Path, p+"/") && ne.Kind == 'f' {
+				below = append(below, ne)
+			}
+		}
+		// a path of the new build may not pass through a file or symlink: p's ancestors must stay directories
+		blocked := false
+		for q := p; ; {
+			i := strings.LastIndex(q, "/")
+			if i < 0 {
+				break
+			}
+			q = q[:i]
+			if ne := nw.Find(q); ne != nil && ne.Kind != 'd' {
+				blocked = true
+			}
+		}
+		if blocked {
+			continue
+		}
+		keepSome := func() {
+			// some of what lay below p moves elsewhere in the new build (renames out of the replaced directory)
+			for _, b := range below {
+				if r.Intn(2) == 0 {
+					np := "moved-out/" + strings.ReplaceAll(b.Path, "/", "_")
+					if nw.Find(np) == nil {
+						nw.Entries = append(nw.Entries, BEntry{Path: np, Kind: 'f', Data: b.Data})
+					}
+				}
+			}
+		}
+		switch e.Kind {
+		case 'f':
+			nw.Remove(p)
+			switch r.Intn(3) {
+			case 0:
+				nw.Entries = append(nw.Entries, BEntry{Path: p, Kind: 'l', Dest: r.Pick2("keep", "../x", "nowhere")})
+				if r.Bool() {
+					nw.Entries = append(nw.Entries, BEntry{Path: "renamed-" + strings.ReplaceAll(p, "/", "_"), Kind: 'f', Data: e.Data})
+				}
+				desc = append(desc, "file->symlink "+p)
+			default:
+				nw.Entries = append(nw.Entries, BEntry{Path: p, Kind: 'd'})
+				if r.Bool() {
+					nw.Entries = append(nw.Entries, BEntry{Path: p + "/fresh.bin", Kind: 'f', Data: r.Bytes(1 + r.Intn(3000))})
+				}
+				if r.Intn(3) == 0 {
+					// the old file itself lives on inside the new directory
+					nw.Entries = append(nw.Entries, BEntry{Path: p + "/same.bin", Kind: 'f', Data: e.Data})
+				}
+				desc = append(desc, "file->dir "+p)
+			}
+		case 'd':
+			keepSome()
+			nw.Remove(p)
+			if r.Bool() {
+				nw.Entries = append(nw.Entries, BEntry{Path: p, Kind: 'f', Data: r.Bytes(r.Intn(2000))})
+				desc = append(desc, "dir->file "+p)
+			} else {
+				nw.Entries = append(nw.Entries, BEntry{Path: p, Kind: 'l', Dest: r.Pick2("moved-out", "nowhere", "/abs")})
+				desc = append(desc, "dir->symlink "+p)
+			}
+		case 'l':
+			nw.Remove(p)
+			if r.Bool() {
+				nw.Entries = append(nw.Entries, BEntry{Path: p, Kind: 'f', Data: r.Bytes(1 + r.Intn(2000))})
+				desc = append(desc, "symlink->file "+p)
+			} else {
+				nw.Entries = append(nw.Entries, BEntry{Path: p, Kind: 'd'}, BEntry{Path: p + "/in.bin", Kind: 'f', Data: r.Bytes(1 + r.Intn(2000))})
+				desc = append(desc, "symlink->dir "+p)
+			}
+		}
+		nw.Normalize()
+	}
+	// drop new entries that ended up below a file or symlink of the new build
+	var keep []BEntry
+	for _, ne := range nw.Entries {
+		ok := true
+		for q := ne.Path; ; {
+			i := strings.LastIndex(q, "/")
+			if i < 0 {
+				break
+			}
+			q = q[:i]
+			if a := nw.Find(q); a != nil && a.Kind != 'd' {
+				ok = false
+			}
+		}
+		if ok {
+			keep = append(keep, ne)
+		}
+	}
+	nw.Entries = keep
+	nw.Normalize()
+	return desc
+}
+
+// Pick2 picks one of the strings.
+func (r *Rng) Pick2(ss ...string) string { return ss[r.Intn(len(ss))] }
